@@ -63,6 +63,11 @@ var c06sTerms = func() []c06sTerm {
 		{`k:/^a/`, func(r *refRes, i int) bool { return a(r.cfg["k"]) }},
 		{`k:/1$/`, func(r *refRes, i int) bool { return one(r.cfg["k"]) }},
 		{`k:(b1 OR /^a/)`, func(r *refRes, i int) bool { return r.cfg["k"] == "b1" || a(r.cfg["k"]) }},
+		// value lists mixing the kinds in the other order: a literal after a regexp is still an equality test
+		{`k:(/^a/ OR b1)`, func(r *refRes, i int) bool { return r.cfg["k"] == "b1" || a(r.cfg["k"]) }},
+		{`.unit:(/^ub$/ OR ua OR "ns/op")`, func(r *refRes, i int) bool {
+			return unitIs(r, i, func(s string) bool { return s == "ub" || s == "ua" || s == "ns/op" })
+		}},
 		{`j:/^a/`, func(r *refRes, i int) bool { return a(r.cfg["j"]) }},
 		{`.name:/^X$/`, func(r *refRes, i int) bool { return r.name == "X" }},
 		{`/s:/1/`, func(r *refRes, i int) bool { return strings.Contains(r.sub, "1") }},
